@@ -86,6 +86,7 @@ class C06(Prop):
     harness = "dpt"
     streams = [("C06", "gendrv", 1.0)]
     budgets = {"quick": 30000, "thorough": 1000000}
+    escalate_seeds = 1  # the thorough generators enumerate their domains: a second seed adds little
     thorough_seeds = 1
     rule = ("unpack -> pack -> unpack through the real types (3 operations per accepted payload): exhaustive over all 256 "
             "one-byte and all 2^8 (x first-byte variants) two-byte payloads of every type; three-byte types: all 65,536 value "
@@ -109,6 +110,7 @@ class C07(Prop):
     harness = "dpt"
     streams = [("C07", "gendrv", 1.0)]
     budgets = {"quick": 30000, "thorough": 1000000}
+    escalate_seeds = 1  # the thorough generators enumerate their domains: a second seed adds little
     thorough_seeds = 1
     rule = ("pack -> unpack through the real types: float32 bit patterns log-uniform over 1e-3..1e9 in both signs, uniform in "
             "each type's decoder-defined range, every bound and exponent-switch point of the 16-bit float with +-1/+-2 ulp "
@@ -725,7 +727,7 @@ def run(prop, tier, seed):
     new_findings = [f for f in all_findings if not runner.match_known(prop, f, known)]
     # escalate the search when something broke but no failing input is at hand
     if (proof_broken or all_dis or strict_broken) and not new_findings and tier == "quick":
-        for s in (seed + 101, seed + 202):
+        for s in (seed + 101, seed + 202)[:getattr(P, "escalate_seeds", 2)]:
             one(s, getattr(P, "escalate_budget", P.budgets["thorough"]), "esc%d" % s)
         new_findings = [f for f in all_findings if not runner.match_known(prop, f, known)]
 
